@@ -299,11 +299,12 @@ def check_curve_oracle(case, obs=None):
                     for x, y, s, g in zip(xs, ys, ss, gk)) or 1.0
         if abs(grad) > grad_tol * scale:
             return ("d chi2 / d parameter {} = {!r} at the returned parameters {} (scale {!r}): not a stationary point of "
-                    "sum(((y - f(x; p)) / s)^2)".format(k, grad, params, scale))
+                    "sum(((y - f(x; p)) / s)^2) for the {}".format(k, grad, params, scale, fc.describe_model(case)))
     if case.get("noise_free"):
         for k, (g, t) in enumerate(zip(params, case["truth"])):
             if abs(g - t) > 1e-6 * max(1.0, abs(t)):
-                return "noise-free data generated with {} gave parameter {} = {!r}".format(case["truth"], k, g)
+                return "noise-free data generated with {} gave parameter {} = {!r} ({})".format(
+                    case["truth"], k, g, fc.describe_model(case))
     # covariance = inverse (J^T W J) at the optimum
     J = [fc.ref_grad(model, params, x) for x in xs]
     n = len(params)
